@@ -147,7 +147,7 @@ def evaluate(ctx, items, flagsets, open_map, ids, exe=None):
         kind = X.handle_verdict(ctx, PID, v, flagsets, open_map, "value created or negative balance", rep,
                                 relevant={"self_transfer", "neg_amount", "stale_changer"})
         if kind == "mismatch":
-            ctx.broken("correspondence:judge_native", "first differing block: " + json.dumps(rep)[:1500])
+            ctx.broken("correspondence:judge_native", "first differing block: replay=%s %s" % (X.save_mismatch(ctx, rep), json.dumps(rep)[:600]))
         elif kind == "domain":
             ctx.broken("correspondence:judge_native(domain)", json.dumps(rep)[:800])
 
